@@ -599,7 +599,7 @@ func (p *c08) usable(o *Outcome, ev *c08Eval, text string, opt bool, after strin
 	}
 }
 
-const nestKinds = 20
+const nestKinds = 21
 
 func nested(kind int, n int) string {
 	rep := strings.Repeat
@@ -634,6 +634,9 @@ func nested(kind int, n int) string {
 		return rep("switch (1) { case 1 { ", n) + "x = 1;" + rep(" } }", n) + " return x;"
 	case 18:
 		return "x = [0]; return " + rep("x[", n) + "0" + rep("]", n) + ";"
+	case 20:
+		// a block behind a constant condition, longer than a 16-bit jump can span
+		return "x = 1; y = 2; z = x + y; if (false) { " + rep("y = y + 1; ", n/2+1) + "} return z;"
 	case 19:
 		// not nested as the user sees it: a long chain of else-if
 		return "x = 0; if (x == 1) { y = 1; }" + rep(" else if (x == 2) { y = 2; }", n) + " else { y = 3; } return y;"
